@@ -305,11 +305,18 @@ func (h *handler1) handleBrokerPublish(ctx context.Context, mqPublish *mqPkts.Pu
 	var needsRegister bool
 	var topicID uint16
 	var topicIDType uint8
+	var pendingTopicIDx interface{}
+	var pending bool
 	if snPkts.IsShortTopic(mqPublish.TopicName) {
 		topicID = snPkts.EncodeShortTopic(mqPublish.TopicName)
 		topicIDType = snPkts1.TIT_SHORT
 		needsRegister = false
 	} else {
+		// The pending registration must be read before the registered
+		// topics: the MQTT-SN receive loop moves a topic from the former
+		// to the latter when REGACK arrives (see regack()), reading in the
+		// opposite order could miss the topic in both.
+		pendingTopicIDx, pending = h.pendingRegistrations.Load(mqPublish.TopicName)
 		var ok bool
 		topicID, topicIDType, ok = h.findTopicID(mqPublish.TopicName)
 		needsRegister = !ok
@@ -374,8 +381,8 @@ func (h *handler1) handleBrokerPublish(ctx context.Context, mqPublish *mqPkts.Pu
 		// a new topic in a row), use the same TopicID: a topic must not
 		// get two TopicIDs.
 		var topicID uint16
-		if topicIDx, ok := h.pendingRegistrations.Load(mqPublish.TopicName); ok {
-			topicID = topicIDx.(uint16)
+		if pending {
+			topicID = pendingTopicIDx.(uint16)
 		} else {
 			var err error
 			topicID, err = h.newTopicID()
